@@ -91,6 +91,22 @@ PBT_PROPERTY(string_view) {
     const size_t maxh = longcase ? (src.boolean() ? 300 : 70) : 10, maxn = longcase ? 40 : 6;
     std::string hs = gen_str(src, maxh, false);
     std::string ns = gen_str(src, maxn, false);
+    // run-structured long strings (half of the long cases): needles beyond 256 bytes made of a few long
+    // runs, haystacks that contain the needle late, preceded by material that shares only part of it —
+    // the shapes on which skip tables, narrow shift types and block-wise compares go wrong
+    if (longcase && src.boolean()) {
+        auto runs = [&](size_t maxruns, size_t maxrun) {
+            std::string r;
+            size_t k = (size_t)src.range(1, (int64_t)maxruns);
+            for (size_t i = 0; i < k; ++i) r.append((size_t)src.range(1, (int64_t)maxrun), (char)ALPHA[src.range(0, sizeof(ALPHA) - 1)]);
+            return r;
+        };
+        ns = runs(4, 320);
+        std::string pre = runs(4, 400);
+        if (src.boolean() && !ns.empty()) pre += ns.substr(0, (size_t)src.range(0, (int64_t)ns.size() - 1)); // a partial occurrence first
+        hs = pre + (src.chance(200) ? ns : std::string()) + runs(2, 20);
+        pbt::label(ns.size() > 256 ? "needle>256" : "needle_runs<=256");
+    }
     if (longcase) pbt::label("long_strings");
     // the needle is often derived from the haystack so that hits are common
     switch (src.range(0, 3)) {
